@@ -114,11 +114,9 @@ theorem valInv_step {s s' : G} {l : Label} (h : ValInv s) (hx : excluded s l = f
     simp only [gstep] at hs
     split at hs
     · cases hs
-    · split at hs
-      · cases hs
-        exact valInv_frame h rfl (Nat.le_refl _) (updEnt_value s _ _ (fun _ => rfl))
-      · cases hs
-        exact valInv_alloc_none h k _ rfl
+      exact valInv_frame h rfl (Nat.le_refl _) (updEnt_value s _ _ (fun _ => rfl))
+    · cases hs
+      exact valInv_alloc_none h k _ rfl
   | ctorOk e =>
     simp only [gstep] at hs
     split at hs
@@ -144,24 +142,19 @@ theorem valInv_step {s s' : G} {l : Label} (h : ValInv s) (hx : excluded s l = f
   | lsLookup k =>
     simp only [gstep] at hs
     split at hs
+    · rename_i e _
+      cases hs
+      refine valInv_frame h rfl (Nat.le_succ _) ?_
+      intro i
+      simp only [bumpVal, updEnt]
+      split <;> rfl
     · cases hs
-    · split at hs
-      · rename_i e _
-        cases hs
-        refine valInv_frame h rfl (Nat.le_succ _) ?_
-        intro i
-        simp only [bumpVal, updEnt]
-        split <;> rfl
-      · cases hs
-        exact valInv_alloc_fresh h k _ rfl
+      exact valInv_alloc_fresh h k _ rfl
   | lsRead e v =>
     simp only [gstep] at hs
-    simp only [excluded] at hx
     split at hs
-    · rw [hx] at hs
-      simp only [Bool.false_eq_true, if_false] at hs
-      cases hs
-      exact valInv_frame h rfl (Nat.le_refl _) (updEnt_value s _ _ (fun _ => rfl))
+    · split at hs <;> cases hs <;>
+        exact valInv_frame h rfl (Nat.le_refl _) (updEnt_value s _ _ (fun _ => rfl))
     · cases hs
   | del1 k ho =>
     cases ho with
@@ -190,24 +183,8 @@ theorem valInv_step {s s' : G} {l : Label} (h : ValInv s) (hx : excluded s l = f
     split at hs
     · cases hs; exact valInv_frame h rfl (Nat.le_refl _) (updEnt_value s _ _ (fun _ => rfl))
     · cases hs
-  | refs1 k =>
-    simp only [gstep] at hs
-    split at hs
-    · cases hs; exact valInv_frame h rfl (Nat.le_refl _) (updEnt_value s _ _ (fun _ => rfl))
-    · cases hs; exact h
-  | refs2 e =>
-    simp only [gstep] at hs
-    split at hs
-    · cases hs; exact valInv_frame h rfl (Nat.le_refl _) (updEnt_value s _ _ (fun _ => rfl))
-    · cases hs
-  | rangeBegin =>
-    simp only [gstep] at hs; cases hs
-    exact valInv_frame h rfl (Nat.le_refl _) (fun _ => rfl)
-  | rangeEnd =>
-    simp only [gstep] at hs
-    split at hs
-    · cases hs; exact valInv_frame h rfl (Nat.le_refl _) (fun _ => rfl)
-    · cases hs
+  | refs k => simp only [gstep] at hs; cases hs; exact h
+  | range => simp only [gstep] at hs; cases hs; exact h
 
 theorem valInv_init : ValInv G.init :=
   ⟨fun e _ he _ => absurd he (Nat.not_lt_zero e), fun e _ _ he _ _ _ => absurd he (Nat.not_lt_zero e)⟩
